@@ -42,6 +42,12 @@ func (s *Server) TransactionSet(ctx context.Context, req *sdcpb.TransactionSetRe
 
 	// populate the transactionIntents from the req.intents basically transforming from sdcpb to datastore intent format
 	for _, intent := range req.GetIntents() {
+		// the tree keeps the values of the device, the schema defaults and the replace content under owner names of
+		// their own: an intent of such a name would be mixed up with them
+		switch intent.GetIntent() {
+		case tree.RunningIntentName, tree.DefaultsIntentName, tree.ReplaceIntentName:
+			return nil, status.Errorf(codes.InvalidArgument, "intent name %q is reserved", intent.GetIntent())
+		}
 		ti, err := ds.SdcpbTransactionIntentToInternalTI(ctx, intent)
 		if err != nil {
 			return nil, err
